@@ -772,6 +772,23 @@ pub struct ProgCase<'a> {
     pub class: &'a str,
     pub max_steps: u64,
     pub has_local_call: bool,
+    /// 0 = the VM is created with the program; k > 0 = created with decoy program k, then
+    /// `set_program` (vm::set_reload)
+    pub reload: u8,
+}
+
+/// Switches the reload construction mode on for the lifetime of the guard.
+pub struct ReloadGuard;
+impl ReloadGuard {
+    pub fn new(k: u8) -> ReloadGuard {
+        vm::set_reload(k);
+        ReloadGuard
+    }
+}
+impl Drop for ReloadGuard {
+    fn drop(&mut self) {
+        vm::set_reload(0);
+    }
 }
 
 #[derive(Default)]
@@ -783,7 +800,7 @@ pub struct ProgStats {
 fn prog_replay(c: &ProgCase, eng: Eng) -> Value {
     json!({"kind":"isa-prog","eng":eng.name(),"vm":vm::kind_name(c.kind),"prog":hex(&isa::enc(c.prog)),
            "inputs": c.inputs.iter().map(|(a,b)| json!([hex(a),hex(b)])).collect::<Vec<_>>(),
-           "helpers": c.helpers, "class": c.class, "max_steps": c.max_steps, "local_call": c.has_local_call})
+           "helpers": c.helpers, "class": c.class, "max_steps": c.max_steps, "local_call": c.has_local_call, "reload": c.reload})
 }
 
 /// Check one program on `eng`. `rp` is the replay descriptor to attach to violations.
@@ -791,6 +808,7 @@ pub fn check_prog(s: &mut Sink, eng: Eng, c: &ProgCase, rp: &Value) -> ProgStats
     let mut st = ProgStats::default();
     let bytes = isa::enc(c.prog);
     let class = c.class;
+    let _reload = ReloadGuard::new(c.reload);
     let pkt_len = c.inputs.first().map_or(0, |i| i.0.len());
     let mb_len = c.inputs.first().map_or(0, |i| i.1.len());
     let mut r = match catch(|| Runner::new(c.kind, &bytes, pkt_len, mb_len, c.helpers)) {
@@ -927,7 +945,7 @@ pub fn replay_prog(v: &Value) -> Vec<String> {
     let prog = isa::dec(&unhex(v["prog"].as_str().unwrap()));
     let inputs: Vec<(Vec<u8>, Vec<u8>)> = v["inputs"].as_array().unwrap().iter().map(|x| (unhex(x[0].as_str().unwrap()), unhex(x[1].as_str().unwrap()))).collect();
     let class = v["class"].as_str().unwrap().to_string();
-    let c = ProgCase { kind: vm::parse_kind(v["vm"].as_str().unwrap()), prog: &prog, inputs: &inputs, helpers: v["helpers"].as_bool().unwrap(), class: &class, max_steps: v["max_steps"].as_u64().unwrap(), has_local_call: v["local_call"].as_bool().unwrap_or(false) };
+    let c = ProgCase { kind: vm::parse_kind(v["vm"].as_str().unwrap()), prog: &prog, inputs: &inputs, helpers: v["helpers"].as_bool().unwrap(), class: &class, max_steps: v["max_steps"].as_u64().unwrap(), has_local_call: v["local_call"].as_bool().unwrap_or(false), reload: v["reload"].as_u64().unwrap_or(0) as u8 };
     let mut s = Sink::new("replay", Tier::Quick, 0, 1, None, None, 3600);
     let rp = v.clone();
     run_group(&mut s, eng, &class, &rp, |cs| {
@@ -988,6 +1006,8 @@ pub fn a2_alphabet() -> Vec<(&'static str, Vec<I>)> {
         ("xaddw [r8+4],r2", vec![i(0xc3, 8, 2, 4, 0)]),
         ("ldabsh 2", vec![i(0x28, 0, 0, 0, 2)]),
         ("ldindb r4,1", vec![i(0x50, 0, 4, 0, 1)]),
+        // a packet load whose index register is the register it writes (r0 = 1 in the first state: byte 16)
+        ("ldindb r0,15", vec![i(0x50, 0, 0, 0, 15)]),
         ("stxdw [r1+168],r3", vec![i(0x7b, 1, 3, 168, 0)]),
         ("ldxw r4,[r1+170]", vec![i(0x61, 4, 1, 170, 0)]),
         ("call 1", vec![isa::call_helper(GATHER_ID)]),
@@ -1062,7 +1082,8 @@ pub fn run_layer2(s: &mut Sink, eng: Eng, g: &mut u64) {
     let n = alpha.len();
     s.meta.insert("layer2".into(), json!({"alphabet_A2": alpha.iter().map(|a| a.0).collect::<Vec<_>>(), "depth": depth, "initial_states": 3, "vm_kinds": "raw (full depth), mbuff and fixed-mbuff (depth 2; quick) / (depth 3; thorough)"}));
     let small: Vec<u8> = (0..16u8).map(|k| 0xd0 + k).collect();
-    for (kind, depth) in [(VmKind::Raw, depth), (VmKind::Mbuff, depth - 1), (L2_FIXED, depth - 1)] {
+    // the last entries: the same sequences on VM objects that held another program before (reload mode)
+    for (kind, depth, reload) in [(VmKind::Raw, depth, 0u8), (VmKind::Mbuff, depth - 1, 0), (L2_FIXED, depth - 1, 0), (VmKind::Raw, depth - 1, 1), (VmKind::Raw, depth - 1, 2), (VmKind::Raw, depth - 1, 3), (L2_FIXED, 2, 1), (VmKind::Mbuff, 2, 3)] {
     let inputs: Vec<(Vec<u8>, Vec<u8>)> = l2_states().iter().map(|st| match kind {
         VmKind::Mbuff => (small.clone(), l2_packet(st)),
         _ => (l2_packet(st), vec![]),
@@ -1080,7 +1101,7 @@ pub fn run_layer2(s: &mut Sink, eng: Eng, g: &mut u64) {
                 return;
             }
             let class = "seq";
-            let rp0 = json!({"kind":"isa-l2-group","eng":eng.name(),"a":a,"b":b,"depth":depth});
+            let rp0 = json!({"kind":"isa-l2-group","eng":eng.name(),"a":a,"b":b,"depth":depth,"reload":reload});
             s.mark(idx, &format!("{}/seq", eng.name()), &rp0);
             let alpha2 = a2_alphabet();
             let inputs2 = inputs.clone();
@@ -1106,8 +1127,8 @@ pub fn run_layer2(s: &mut Sink, eng: Eng, g: &mut u64) {
                 for sq in seqs {
                     let parts: Vec<&Vec<I>> = sq.iter().map(|k| &alpha2[*k].1).collect();
                     let prog = l2_program_for(kind, &parts);
-                    let class = match kind { VmKind::Raw => "seq", VmKind::Mbuff => "seq@mbuff", _ => "seq@fixed-mbuff" };
-                    let c = ProgCase { kind, prog: &prog, inputs: &inputs2, helpers: true, class, max_steps: 10_000, has_local_call: false };
+                    let class = match (kind, reload) { (VmKind::Raw, 0) => "seq", (VmKind::Mbuff, 0) => "seq@mbuff", (_, 0) => "seq@fixed-mbuff", _ => "seq@reloaded-vm" };
+                    let c = ProgCase { kind, prog: &prog, inputs: &inputs2, helpers: true, class, max_steps: 10_000, has_local_call: false, reload };
                     let rp = prog_replay(&c, eng);
                     let st = check_prog(cs, eng, &c, &rp);
                     if st.rejected {
@@ -1198,52 +1219,55 @@ pub fn run_layer3(s: &mut Sink, eng: Eng, g: &mut u64) {
     };
     s.meta.insert("layer3".into(), json!({"slots": n, "grammar": "M add64 r1,3^i | Z mov64 r0,r1 | E exit | W lddw (2 slots) | Ja/Jl(jlt r1,40)/Js(jset r1,1)/C(local call) with every displacement whose target lies in the program; epilogue mov64 r0,r1; exit", "vm": "NoData"}));
     let inputs: Vec<(Vec<u8>, Vec<u8>)> = vec![(vec![], vec![])];
-    // group = choice of the first two slots
-    let c0 = slot_choices(0, n, true);
-    let c1 = slot_choices(1, n, true);
-    for a in &c0 {
-        for b in &c1 {
-            let idx = *g;
-            *g += 1;
-            if !s.take(idx) {
-                continue;
-            }
-            if s.expired() {
-                s.cut("layer 3: control-flow skeletons");
-                return;
-            }
-            let rp0 = json!({"kind":"isa-l3-group","eng":eng.name(),"n":n,"a":format!("{a:?}"),"b":format!("{b:?}")});
-            s.mark(idx, &format!("{}/cfg", eng.name()), &rp0);
-            let (a, b) = (*a, *b);
-            let inputs2 = inputs.clone();
-            run_group(s, eng, "cfg", &rp0, move |cs| {
-                let mut frontier: Vec<Vec<Slot>> = vec![vec![a, b]];
-                for pos in 2..n {
-                    let ch = slot_choices(pos, n, true);
-                    let mut next = Vec::with_capacity(frontier.len() * ch.len());
-                    for f in &frontier {
-                        for c in &ch {
-                            let mut x = f.clone();
-                            x.push(*c);
-                            next.push(x);
+    // the skeletons one slot smaller are also run on VM objects that held another program before
+    for (n, reload) in [(n, 0u8), (n - 1, 1), (n - 1, 3)] {
+        // group = choice of the first two slots
+        let c0 = slot_choices(0, n, true);
+        let c1 = slot_choices(1, n, true);
+        for a in &c0 {
+            for b in &c1 {
+                let idx = *g;
+                *g += 1;
+                if !s.take(idx) {
+                    continue;
+                }
+                if s.expired() {
+                    s.cut("layer 3: control-flow skeletons");
+                    return;
+                }
+                let rp0 = json!({"kind":"isa-l3-group","eng":eng.name(),"n":n,"a":format!("{a:?}"),"b":format!("{b:?}"),"reload":reload});
+                s.mark(idx, &format!("{}/cfg", eng.name()), &rp0);
+                let (a, b) = (*a, *b);
+                let inputs2 = inputs.clone();
+                run_group(s, eng, "cfg", &rp0, move |cs| {
+                    let mut frontier: Vec<Vec<Slot>> = vec![vec![a, b]];
+                    for pos in 2..n {
+                        let ch = slot_choices(pos, n, true);
+                        let mut next = Vec::with_capacity(frontier.len() * ch.len());
+                        for f in &frontier {
+                            for c in &ch {
+                                let mut x = f.clone();
+                                x.push(*c);
+                                next.push(x);
+                            }
+                        }
+                        frontier = next;
+                    }
+                    for sk in frontier {
+                        let Some(prog) = skeleton_program(&sk) else { continue };
+                        cs.count("skeletons", 1);
+                        let has_call = sk.iter().any(|x| matches!(x, Slot::C(_)));
+                        let c = ProgCase { kind: VmKind::NoData, prog: &prog, inputs: &inputs2, helpers: false, class: "cfg", max_steps: 2_000, has_local_call: has_call, reload };
+                        let rp = prog_replay(&c, eng);
+                        let st = check_prog(cs, eng, &c, &rp);
+                        if st.rejected {
+                            cs.outcome("rejected-by-verifier", 1);
+                        } else {
+                            cs.sample("l3-skeleton", || json!({"skeleton": skel_str(&sk), "program": isa::listing(&prog)}));
                         }
                     }
-                    frontier = next;
-                }
-                for sk in frontier {
-                    let Some(prog) = skeleton_program(&sk) else { continue };
-                    cs.count("skeletons", 1);
-                    let has_call = sk.iter().any(|x| matches!(x, Slot::C(_)));
-                    let c = ProgCase { kind: VmKind::NoData, prog: &prog, inputs: &inputs2, helpers: false, class: "cfg", max_steps: 2_000, has_local_call: has_call };
-                    let rp = prog_replay(&c, eng);
-                    let st = check_prog(cs, eng, &c, &rp);
-                    if st.rejected {
-                        cs.outcome("rejected-by-verifier", 1);
-                    } else {
-                        cs.sample("l3-skeleton", || json!({"skeleton": skel_str(&sk), "program": isa::listing(&prog)}));
-                    }
-                }
-            });
+                });
+            }
         }
     }
     s.done("layer 3: control-flow skeletons");
@@ -1373,7 +1397,7 @@ pub fn l4_check(s: &mut Sink, eng: Eng, c: &L4) {
     // programs at the 1,000,000-instruction limit are a class of their own
     let class_s = if c.n >= 1_000_000 { format!("{class}@1M-insns") } else { class.to_string() };
     let class = class_s.as_str();
-    let pc = ProgCase { kind: VmKind::NoData, prog: &prog, inputs: &inputs, helpers: false, class, max_steps: 3 * c.n as u64 + 1000, has_local_call: c.variant == 4 };
+    let pc = ProgCase { kind: VmKind::NoData, prog: &prog, inputs: &inputs, helpers: false, class, max_steps: 3 * c.n as u64 + 1000, has_local_call: c.variant == 4, reload: 0 };
     let st = check_prog(s, eng, &pc, &rp);
     if st.rejected {
         s.violation(&format!("verifier/{class}/rejects-template"), "the default verifier rejected a well-formed long program".into(), rp.clone());
@@ -1426,7 +1450,7 @@ fn l5_fillers(a: usize, b: usize) -> Vec<I> {
 }
 
 /// shape 0: backward conditional loop; 1: backward ja; 2: forward taken jcc; 3: forward ja;
-/// 4: forward not-taken jcc
+/// 4: forward not-taken jcc; 5 / 6: backward ja / jcc with no other jump between it and its target
 pub fn l5_distance_program(shape: u8, a: usize, b: usize) -> Vec<I> {
     let f = l5_fillers(a, b);
     let n = f.len() as i16;
@@ -1455,6 +1479,19 @@ pub fn l5_distance_program(shape: u8, a: usize, b: usize) -> Vec<I> {
             p.push(isa::ja(n));
             p.extend(f);
             p.push(isa::add64i(0, 1000));
+        }
+        5 | 6 => {
+            // a backward jump with no other jump between it and its target: entered by a forward
+            // jump over the body, the body ends in exit
+            p.push(isa::mov64i(6, 1));
+            p.push(isa::ja(n + 1));
+            p.extend(f);
+            p.push(isa::EXIT);
+            if shape == 5 {
+                p.push(isa::ja(-(n + 2)));
+            } else {
+                p.push(I::new(0x55, 6, 0, -(n + 2), 0)); // jne r6, 0, back
+            }
         }
         _ => {
             p.push(isa::mov64i(6, 0));
@@ -1533,7 +1570,7 @@ pub fn run_layer5(s: &mut Sink, eng: Eng, g: &mut u64) {
     let thorough = s.tier == Tier::Thorough;
     let (amax, bmax) = if thorough { (64usize, 128usize) } else { (32, 64) };
     s.meta.insert("layer5".into(), json!({
-        "distance": format!("5 jump shapes (backward jcc loop, backward ja, forward jcc taken / not taken, forward ja) x a in 0..={amax} seven-byte fillers x b in 0..={bmax} three-byte fillers: every machine-code distance up to {} bytes, most of them several ways", 7 * amax + 3 * bmax),
+        "distance": format!("7 jump shapes (backward jcc loop, backward ja, forward jcc taken / not taken, forward ja, backward ja / jcc with no other jump in between) x a in 0..={amax} seven-byte fillers x b in 0..={bmax} three-byte fillers: every machine-code distance up to {} bytes, most of them several ways", 7 * amax + 3 * bmax),
         "jump_targets": "J in {jeq, jne, jsgt r7,0,+1; ja +1} x P (13 ALU instructions, skipped when J is taken) x T (11 conditions x 64/32 bit x imm {0,1,-1} and reg; 6 ALU) x r6 in {0,1,-1,0xff,2^32} x r7 in {0,1}",
     }));
     let inputs = vec![(vec![], vec![])];
@@ -1552,9 +1589,9 @@ pub fn run_layer5(s: &mut Sink, eng: Eng, g: &mut u64) {
         let inputs2 = inputs.clone();
         run_group(s, eng, "distance", &rp0, move |cs| {
             for b in 0..=bmax {
-                for shape in 0..5u8 {
+                for shape in 0..7u8 {
                     let prog = l5_distance_program(shape, a, b);
-                    let c = ProgCase { kind: VmKind::NoData, prog: &prog, inputs: &inputs2, helpers: false, class: "distance", max_steps: 100_000, has_local_call: false };
+                    let c = ProgCase { kind: VmKind::NoData, prog: &prog, inputs: &inputs2, helpers: false, class: "distance", max_steps: 100_000, has_local_call: false, reload: 0 };
                     let rp = prog_replay(&c, eng);
                     let st = check_prog(cs, eng, &c, &rp);
                     if st.rejected {
@@ -1589,7 +1626,7 @@ pub fn run_layer5(s: &mut Sink, eng: Eng, g: &mut u64) {
                     for a in [0u64, 1, u64::MAX, 0xff, 1 << 32] {
                         for b in [0u64, 1] {
                             let prog = l5_target_program(a, b, j, p, *t);
-                            let c = ProgCase { kind: VmKind::NoData, prog: &prog, inputs: &inputs2, helpers: false, class: "jump-target", max_steps: 1000, has_local_call: false };
+                            let c = ProgCase { kind: VmKind::NoData, prog: &prog, inputs: &inputs2, helpers: false, class: "jump-target", max_steps: 1000, has_local_call: false, reload: 0 };
                             let rp = prog_replay(&c, eng);
                             let st = check_prog(cs, eng, &c, &rp);
                             if st.rejected {
